@@ -46,7 +46,7 @@ func c04hRun(sc *c04hScenario) ([][]c04hEvent, string) {
 			cp := *m
 			cp.Payload = append([]byte{}, m.Payload...)
 			mu.Lock()
-			events = append(events, c04hEvent{i, "Hand " + cLibMsg(&cp), fmt.Sprintf("handler%d(q%d,id%d,#%d)", i, cp.QoS, cp.ID, cp.Payload[0])})
+			events = append(events, c04hEvent{i, "Hand " + cLibMsg(&cp), fmt.Sprintf("handler%d(q%d,id%d,#%d)", i, cp.QoS, cp.ID, c04P0(cp.Payload))})
 			mu.Unlock()
 			// the receiver owns the message
 			m.ID ^= 0x5A5A
@@ -275,7 +275,13 @@ func c04hFamily(cfg *runCfg, r *rand.Rand, cf *casesFile, m *meta) (int, error) 
 			if r.Intn(3) == 0 {
 				h = 1
 			}
-			sc.Segs = append(sc.Segs, c04Seg{h, c04hRandPkts(r, r.Intn(6), &seq)})
+			ps := c04hRandPkts(r, r.Intn(6), &seq)
+			for j := range ps {
+				if !ps[j].Rel && r.Intn(8) == 0 {
+					ps[j].Msg.Payload = nil
+				}
+			}
+			sc.Segs = append(sc.Segs, c04Seg{h, ps})
 		}
 		if sc.LateFirst && sc.Segs[0].H == 0 {
 			sc.LateFirst = false
